@@ -125,6 +125,8 @@ namespace plan
       g_rel(r, op, K);
       g_rel(r, op, K);
     }
+    else if (name == "blockade")
+      op.a = {static_cast<long>(r.below(4)), static_cast<long>(r.below(4))};
     else if (name == "touch")
       op.a = {static_cast<long>(r.below(6)), static_cast<long>(r.below(6)), static_cast<long>(r.chance(3, 4) ? 1 : r.below(4))};
     else if (name == "pin")
@@ -377,6 +379,15 @@ namespace plan
     }
     if (sv)
       ops.push_back(g_op(g, "svinst"));
+    if (sv && Rng(seed).derive("open-tau").chance(1, 3))
+    { // timelines chosen by the search: a second instance and one or two object variables over the timeline classes; goals and
+      // facts stated on them have an open tau (placement / forbid resolvers, the ordering literals between open and pinned atoms)
+      ops.push_back(g_op(g, "svinst"));
+      for (int i = 0, k = static_cast<int>(g.range(1, 2)); i < k; ++i)
+        ops.push_back(g_op(g, "ovar"));
+      if (g.chance(1, 2))
+        ops.push_back(g_op(g, "blockade"));
+    }
     if (rr)
     {
       ops.push_back(g_op(g, "rr"));
